@@ -20,6 +20,10 @@ CHECKS.update({
 CHECKS.update({
 "C17":("exploration","Applications (1-4 members, optional dependency) started 1-3 times in every mode, with failing Init, a member dying during start, concurrent member exits / kills and ApplicationStop / StopForce / StopWithTimeout calls from two clients; reference lifecycle model for start order, dependency order, callback counts, stop condition per mode, Terminate reason of this stop, state and restartability; a call that never returns is reported as a hang violation."),
 })
+CHECKS.update({
+"C10":("fault_enumeration","Supervision trees (depth <= 3, <= 12 processes: supervisors of all types, pools, leaves, optionally under an application) hit by faults enumerated over which process x how (kill, error, panic, normal, shutdown) x when (during start-up, steady, back to back into an ongoing restart/shutdown) and ended by killing the root, ApplicationStop(Force) or graceful Node.Stop; orphan audit at quiescence, stop-returns-after and stop-must-return."),
+"C19":("exploration","act.Pool with drawn size / worker mailbox / worker speed under concurrent numbered sends and calls, worker kills and panics, AddWorkers/RemoveWorkers; at-most-once handling, exact accounting without crashes, bounded loss with crashes, no loss for items sent after the last crash completed, sender/ref preservation, High-priority handled by the pool, ring size restored."),
+})
 NA={}
 def chk(pid):
     level,text=CHECKS[pid]
